@@ -23,6 +23,7 @@ HARNESSES = [
     ("c14", "rcfork", ()),
     ("c15", "rcfork", ()),
     ("c16", "rcfork", ()),
+    ("c19", "rcfork", ()),
     ("c04", "rcfork", ()),
     ("fz_bitmap_hwloc", "fuzz", ("-DFMT=0",), "fz_bitmap"),
     ("fz_bitmap_list", "fuzz", ("-DFMT=1",), "fz_bitmap"),
@@ -101,7 +102,7 @@ def replay_one(ctx, path):
 
 
 # engine cfg.name -> source file name
-ALIASES = {"c01_load": "c01", "c02_history": "c02", "c03_bitmap": "c03", "c05_xml": "c05", "c06_xmlmut": "c06", "c07_synthetic": "c07", "c08_restrict": "c08", "c09_helpers": "c09", "c11_types": "c11", "c12_dup": "c12", "c13_distances": "c13", "c14_memattrs": "c14", "c15_cpukinds": "c15", "c16_diff": "c16", "c04_strings": "c04"}
+ALIASES = {"c01_load": "c01", "c02_history": "c02", "c03_bitmap": "c03", "c05_xml": "c05", "c06_xmlmut": "c06", "c07_synthetic": "c07", "c08_restrict": "c08", "c09_helpers": "c09", "c11_types": "c11", "c12_dup": "c12", "c13_distances": "c13", "c14_memattrs": "c14", "c15_cpukinds": "c15", "c16_diff": "c16", "c19_shmem": "c19", "c04_strings": "c04"}
 
 
 def C01(ctx):
@@ -231,4 +232,8 @@ def C09(ctx):
     std_check(ctx, [dict(harness="c09", aliases=["c09_helpers"], cases=(600, 12000), max_ops=1)])
 
 
-PROPS = {"C01": C01, "C09": C09, "C11": C11, "C07": C07, "C06": C06, "C05": C05, "C16": C16, "C14": C14, "C13": C13, "C15": C15, "C08": C08, "C12": C12, "C02": C02, "C03": C03, "C04": C04}
+def C19(ctx):
+    std_check(ctx, [dict(harness="c19", aliases=["c19_shmem"], cases=(450, 10000), max_ops=5)])
+
+
+PROPS = {"C01": C01, "C19": C19, "C09": C09, "C11": C11, "C07": C07, "C06": C06, "C05": C05, "C16": C16, "C14": C14, "C13": C13, "C15": C15, "C08": C08, "C12": C12, "C02": C02, "C03": C03, "C04": C04}
